@@ -30,6 +30,12 @@ theorem endpoints_are_vertices (h : starts.length = ends.length) (x : β) :
     x ∈ (build directed starts ends weights).labels ↔ x ∈ starts ∨ x ∈ ends := by
   rw [labels_first_appearance, mem_firstApp, mem_interleave h]
 
+/-- the vertex count computed from the union of start and end labels (utils.hpp `get_num_vertices`,
+used by the validation) is the number of vertices the network gets -/
+theorem vertex_count_consistent (h : starts.length = ends.length) :
+    numVertices starts ends = (build directed starts ends weights).labels.length :=
+  numVertices_eq starts ends h
+
 /-- the index of a label is its position in that list (`idx_map` lookup) -/
 theorem record_indices :
     (build directed starts ends weights).recs =
